@@ -170,3 +170,14 @@ Theorem C16_float_100_iff_all_match : forall m c : Z,
   (0 <= m <= c)%Z -> (0 < c <= 2 ^ 53)%Z -> (percent m c = 100%R <-> m = c).
 Proof. exact percent_100_iff. Qed.
 Print Assumptions C16_float_100_iff_all_match.
+
+(* THE SOURCE'S OWN FORMULA.  Gen/GenFormulas.v is regenerated from /repo/torrentfile/recheck.py on every run: the expression
+   Checker.iter_hashes stores into self._result (`<expr> if consumed > 0 else 0`) as a tree of int / int true divisions and float
+   multiplications over the two counters.  Evaluated in binary64 -- an integer operand is converted first, int / int is the
+   correctly rounded quotient of the two integers, every operation rounds to nearest-even -- it IS the `percent` of the float
+   theorems of C04, C05 and C16, for all values of the counters. *)
+From TF Require Import Gen.GenFormulas Proofs.PercentInstance.
+Theorem C16_float_source_formula : forall m c : Z,
+  gen_percent_zero_unless_consumed_positive = true /\ feval gen_percent_expr m c = percent m c.
+Proof. exact gen_percent_is_percent. Qed.
+Print Assumptions C16_float_source_formula.
